@@ -981,7 +981,12 @@ class UTPM(Ring, RawAlgorithmsMixIn):
         else:
             xbar, = out
 
-        xbar.data.real = ybar.data
+        if numpy.may_share_memory(xbar.data, ybar.data):
+            # y = real(x) of a complex x is a view of x: ybar is the real part of xbar already
+            xbar.data.real = ybar.data
+        else:
+            # real-valued x: y has a buffer of its own and xbar may hold the adjoints of other consumers
+            xbar.data.real += ybar.data
 
     @classmethod
     def imag(cls, x):
